@@ -70,6 +70,11 @@ func mkKindValue(t reflect.Type, n int) (reflect.Value, bool) {
 		return reflect.ValueOf(n).Convert(t), true
 	case t.Kind() == reflect.Float64:
 		return reflect.ValueOf(float64(n) + 0.5).Convert(t), true
+	case t.Kind() == reflect.Map && t.Key().Kind() == reflect.String && t.Elem().Kind() == reflect.String:
+		// a natural-language map with one language
+		m := reflect.MakeMap(t)
+		m.SetMapIndex(reflect.ValueOf("en").Convert(t.Key()), reflect.ValueOf(fmt.Sprintf("s%d", n)).Convert(t.Elem()))
+		return m, true
 	case t.Kind() == reflect.Interface:
 		for _, te := range typeTable {
 			v := te.New()
@@ -235,7 +240,16 @@ func runContainer(in J) interface{} {
 					p.MethodByName("Insert" + kind).Call([]reflect.Value{reflect.ValueOf(intOf(op["i"], 0)), v})
 				}
 			case "set":
-				if pe.Functional {
+				if op["via"] == "language" {
+					// SetLanguage(tag, value) on the slot / on the element: afterwards the slot holds the language map
+					// {tag: value} and nothing else
+					val := reflect.ValueOf(fmt.Sprintf("s%d", intOf(op["n"], 0)))
+					tgt := p
+					if !pe.Functional {
+						tgt = p.MethodByName("At").Call([]reflect.Value{reflect.ValueOf(intOf(op["i"], 0))})[0]
+					}
+					tgt.MethodByName("SetLanguage").Call([]reflect.Value{reflect.ValueOf("en"), val})
+				} else if pe.Functional {
 					v, ok := mk(op, "Set")
 					if ok {
 						setterOf(p, "Set", kind).Call([]reflect.Value{v})
@@ -364,6 +378,22 @@ func init() {
 							alphabet = append(alphabet, J{"op": "set", "kind": k, "n": i + 1, "tok": tok})
 						}
 					}
+					if pe.NatLang {
+						// the language map kind, also through SetLanguage
+						if tok, ok := tokOf("RDFLangString", 7, "Set"); ok {
+							has := false
+							for _, a := range alphabet {
+								if a["kind"] == "RDFLangString" {
+									has = true
+								}
+							}
+							if !has {
+								alphabet = append(alphabet, J{"op": "set", "kind": "RDFLangString", "n": 7, "tok": tok})
+							}
+							tok8, _ := tokOf("RDFLangString", 8, "Set")
+							alphabet = append(alphabet, J{"op": "set", "kind": "RDFLangString", "n": 8, "tok": tok8, "via": "language"})
+						}
+					}
 					var rec func(prefix []interface{}, depth int)
 					rec = func(prefix []interface{}, depth int) {
 						yield(J{"prop": pe.Name, "functional": true, "ops": append([]interface{}{}, prefix...)})
@@ -462,7 +492,12 @@ func init() {
 								}
 							}
 						case 4:
-							if tok, ok := tokOf(kind, n+1, "Set"); ok {
+							if pe.NatLang && r.chance(40) {
+								// the element's SetLanguage: the element then holds the language map {en: value} only
+								if tok, ok := tokOf("RDFLangString", n+1, "Set"); ok {
+									op = J{"op": "set", "kind": "RDFLangString", "n": n + 1, "tok": tok, "i": idx(cur), "via": "language"}
+								}
+							} else if tok, ok := tokOf(kind, n+1, "Set"); ok {
 								op = J{"op": "set", "kind": kind, "n": n + 1, "tok": tok, "i": idx(cur)}
 							}
 						case 5:
